@@ -104,6 +104,28 @@ def run(prop, tier, seed):
             vflat = s14.seminorm_h_1_2(P, a, a + h)
             vcurve = s14.seminorm_h_1_2(lambda xh, g: P(xh), a, a + h, gam)
             add("h12-curve", N, "curve-equals-flat", 0, vcurve, vflat, 1e-11 * abs(vflat) if vflat else 1e-300)
+    # objects with *different* orders for the two seminorms, constructed one after another in one process (the driver does
+    # this with its 5355 setting): each must be exact to its own orders whatever was constructed before
+    for n14, n12 in ((5, 21), (5, 5), (21, 5), (5, 21), (9, 3), (3, 9)):
+        sx = Slobodeckij(n14, n12)
+        for routine, call, exact, n in (("h14", sx.seminorm_h_1_4, sr.h14, n14), ("h12", sx.seminorm_h_1_2, sr.h12, n12)):
+            deg = (n - 1) // 2
+            if deg < 1:
+                continue
+            a, h = interval()
+            c = rand_poly(rng, deg)
+            f = (lambda c, a, h: lambda x: sum(float(ck) * ((x - a) / h) ** k for k, ck in enumerate(c)))(c, a, h)
+            e = exact(c, h)
+            add(routine, n, "exact-after-other-orders", deg, call(f, a, a + h), e, TOL * abs(e), {"constructed_as": [n14, n12]})
+    # short intervals far from the origin (tolerance 1e-6: the test function itself is only evaluated to ~1e-10 there)
+    for N in (5, 13):
+        sx = Slobodeckij(N)
+        for a, h in ((1000.0, 0.004), (1000.0, 0.3), (-250.0, 0.01)):
+            h = (a + h) - a
+            c = rand_poly(rng, (N - 1) // 2)
+            f = (lambda c, a, h: lambda x: sum(float(ck) * ((x - a) / h) ** k for k, ck in enumerate(c)))(c, a, h)
+            add("h12", N, "far-interval", 0, sx.seminorm_h_1_2(f, a, a + h), sr.h12(c, h), 1e-6 * abs(sr.h12(c, h)), {"interval": [a, a + h]})
+            add("h14", N, "far-interval", 0, sx.seminorm_h_1_4(f, a, a + h), sr.h14(c, h), 1e-6 * abs(sr.h14(c, h)), {"interval": [a, a + h]})
     # corner configuration: polynomial data in the embedded coordinates, order 21
     R = Rules(n=20, q=0.3, levels=30)
     for rep in range(2 if quick else 8):
